@@ -4,6 +4,8 @@ Same operational model and specification as C03 (Model/ExpressPipeline.v, Spec/E
 in random surroundings:
  * Data side: every verdict (all ValidResult values + a validator raising TimeoutError; legacy: nine Python values of both
    truthinesses) x validator latency {at once, before, at (three tie linearisations), after the deadline, never};
+ * Interest side, suspended validators: the validator of an incoming Interest takes its time while the application attaches /
+   detaches routes or replaces the application-wide validator (Model/GateSuspend.v, suspended_table / random_susp);
  * Interest side: every verdict x ApplicationParameters present x signature {none, DigestSha256 ok, DigestSha256 bad}
    x parameters-digest correct x route with/without its own validator x no route, in both front-ends, x every
    placement of a replacement of the application-wide validator (legacy app.int_validator) relative to the installation
@@ -22,6 +24,19 @@ RULE = ('Data side: verdict x latency table (6 resp. 9 verdict values x 8 latenc
         'interleavings of attach / replace-default / Interest / shutdown with independent Interest attributes; the oracle '
         'determines per Interest the validator in force from the history before it (extracted Spec.in_force / default_of) and '
         'checks delivery iff may_deliver, that exactly that validator object was consulted, and consultation before the handler; '
+        'SUSPENDED INTEREST VALIDATORS UNDER ROUTE CHANGES (both front-ends; events arrive / ivdone / detach): a route /a (with / '
+        'without its own validator; legacy: with / without a replaced application-wide validator), an Interest /a/b/h (6 params x '
+        'signature classes, every verdict) whose validator SUSPENDS, and one update of the routing state placed before the arrival / '
+        'IN THE WINDOW between arrival and verdict / after the verdict: nothing, attach a more specific route without / with a '
+        'validator, attach the most specific / an unrelated route, detach the route, detach and re-attach the prefix without / with '
+        'a validator (new handler), detach + attach a more specific one, replace / restore the application-wide validator, attach + '
+        'detach again; optionally a second Interest (immediate / suspended, answered first) that meets the new table; corrupted '
+        'digests; plus random interleavings of attach / detach / setdefault / suspending and immediate Interests / verdicts in any '
+        'order. Oracle (any such history): every handler that receives an Interest was attached at a prefix of its name and the '
+        'validator in force FOR THAT HANDLER (its own; legacy: else the application-wide one at arrival; appv2: none = rejection) '
+        'accepted it (Spec.may_deliver / in_force) and was the one consulted, no double delivery, nothing delivered without a verdict, '
+        'an accepted Interest whose route is unchanged is delivered; correspondence with Model/GateSuspend.v (handler calls, '
+        'validator consultations). '
         'plus the C03 random histories with all verdicts. non-trivial = the validator is consulted or a gate decision is taken; '
         'distinct by history')
 ASSUMPTIONS = ['validators are harness coroutines (verdict chosen by the history); the parameters digest / DigestSha256 '
